@@ -38,7 +38,7 @@ func Spec() *mon.Spec {
 	return &mon.Spec{
 		ID:    "C14",
 		Level: "exploration",
-		Rule:  "built with -race. N in {2,4,8,32} goroutines x M calls share ONE Client (TCP / RTU framing) or SerialClient whose transport is a harness device (reference decoder + simulated memory) that answers each request in arrival order, with PRNG yields/sleeps inside Write and Read and a 'thinking time' before a reply becomes readable. Monitors: (1) exchange-overlap detector in the transport: a Write while the previous reply is unconsumed and its owner neither cancelled nor returned, or a Write that is not exactly one well-formed request frame; (2) reply matching: every call has a unique (address, quantity[, tid]) and the device memory is a hash of the address, verified at return and again after later calls (aliasing of shared buffers); wire sequence = each issued request exactly once; (3) porcupine linearizability check of FC6 writes (unique values) / FC3 reads on 4 registers, partitioned by register; (4) Go race detector reports and panics, incl. goroutines calling Close/Connect concurrently and callers whose context is cancelled while they wait. distinct key = hash of the caller-id sequence seen on the wire (interleavings_distinct).",
+		Rule:  "built with -race. N in {2,4,8,32} goroutines x M calls share ONE Client (TCP / RTU framing) or SerialClient whose transport is a harness device (reference decoder + simulated memory) that answers each request in arrival order, with PRNG yields/sleeps inside Write and Read and a 'thinking time' before a reply becomes readable. Monitors: (1) exchange-overlap detector in the transport: a Write while the previous reply is unconsumed and its owner neither cancelled nor returned, or a Write that is not exactly one well-formed request frame; (2) reply matching: every call has a unique (address, quantity[, tid]) and the device memory is a hash of the address, verified at return and again after later calls (aliasing of shared buffers); wire sequence = each issued request exactly once; (3) porcupine linearizability check of FC6 writes (unique values) / FC3 reads on 4 registers, partitioned by register; (3b) slow-device cases (40 ms per reply, 8 callers, write timeout 250 ms, a transport that fails writes issued after their deadline) and reconnect cases (one request answered 300 ms late against a 100 ms read timeout, then Connect without Close on a device that does not flush unread replies: every later caller must still get its own reply); (4) Go race detector reports and panics, incl. goroutines calling Close/Connect concurrently and callers whose context is cancelled while they wait. distinct key = hash of the caller-id sequence seen on the wire (interleavings_distinct).",
 		Assumptions: []string{"FC23 is left out (its expected-length formula times out on every reply, C07 known finding)", "serial client histories are short (30 ms sleep inside every Do)",
 			"after a cancelled caller abandons its reply the device flushes it (what happens to the next caller after a cancellation is outside this property)"},
 		NewCase:      func() any { return &Case{} },
@@ -77,6 +77,7 @@ func gen(g *mon.Gen) {
 			}
 			if client != clientx.Serial && (rep < 2 || g.Thorough() && rep%10 == 0) {
 				g.Emit(&Case{Client: client, Mode: "plain", G: 8, M: 2, Seed: rng.Int63(), Delay: 3})
+				g.Emit(&Case{Client: client, Mode: "reconnect", G: 4, M: 3, Seed: rng.Int63(), Delay: rep % 2})
 			}
 		}
 	}
@@ -87,6 +88,7 @@ func gen(g *mon.Gen) {
 type owner struct {
 	g, k      int
 	noReply   bool // the device never answers this request (absent unit): its caller polls until it is cancelled
+	late      bool // the device answers this request only after 300 ms (the caller's read timeout is 100 ms)
 	cancel    func()
 	polls     int
 	cancelled atomic.Bool
@@ -111,8 +113,10 @@ type devConn struct {
 	blocking bool
 	// wdl: the write deadline the client set; like a real connection, a Write after it has passed fails with a timeout
 	wdl time.Time
-	// readyTime (delay class 3, a slow device): the reply becomes readable only at this moment
+	// readyTime (delay class 3, a slow device; late owners): the reply becomes readable only at this moment
 	readyTime time.Time
+	// noflush: a reply nobody read stays in the connection, in front of the next one (an in-order device behind a socket)
+	noflush bool
 }
 
 func (d *devConn) jitter() {
@@ -148,6 +152,10 @@ func (d *devConn) Write(p []byte) (int, error) {
 		return len(p), nil
 	}
 	ow := d.owners(q)
+	var stale []byte
+	if len(d.pending) > 0 && d.owner != nil && d.noflush && d.owner.returned.Load() {
+		stale = d.pending
+	}
 	if len(d.pending) > 0 && d.owner != nil {
 		if !d.owner.cancelled.Load() && !d.owner.returned.Load() {
 			d.viol = append(d.viol, fmt.Sprintf("exchange-overlap: request of caller %d.%d written while the reply to caller %d.%d was still outstanding (%d unread bytes) and that caller was neither cancelled nor back", ow.g, ow.k, d.owner.g, d.owner.k, len(d.pending)))
@@ -158,8 +166,12 @@ func (d *devConn) Write(p []byte) (int, error) {
 	if ow != nil {
 		d.wire = append(d.wire, ow.g)
 	}
-	d.pending = d.dev.Handle(q).Encode(d.fr)
+	d.pending = append(stale, d.dev.Handle(q).Encode(d.fr)...)
 	d.readyAt = 0
+	d.readyTime = time.Time{}
+	if ow != nil && ow.late {
+		d.readyTime = time.Now().Add(300 * time.Millisecond)
+	}
 	if d.delay > 0 {
 		d.readyAt = d.rng.Intn(4)
 	}
@@ -179,7 +191,7 @@ func (d *devConn) Read(p []byte) (int, error) {
 	if d.closed {
 		return 0, io.ErrClosedPipe
 	}
-	if d.delay == 3 && len(d.pending) > 0 && time.Now().Before(d.readyTime) {
+	if len(d.pending) > 0 && time.Now().Before(d.readyTime) {
 		d.mu.Unlock()
 		time.Sleep(time.Millisecond) // the device is still working on it; do not let the polling client burn a core
 		d.mu.Lock()
@@ -276,7 +288,7 @@ func run(ci any, r *mon.Rec) {
 		cmu.Lock()
 		defer cmu.Unlock()
 		d := &devConn{fr: fr, dev: dev, delay: c.Delay, rng: rand.New(rand.NewSource(c.Seed + int64(len(conns)))), owners: lookup,
-			blocking: c.Client == clientx.Serial && c.Block}
+			blocking: c.Client == clientx.Serial && c.Block, noflush: c.Mode == "reconnect"}
 		conns = append(conns, d)
 		return d
 	}
@@ -290,7 +302,11 @@ func run(ci any, r *mon.Rec) {
 	}
 	switch c.Client {
 	case clientx.TCP, clientx.RTUNet:
-		cfg := modbus.ClientConfig{ReadTimeout: 2 * time.Second, WriteTimeout: wt, DialContextFunc: func(ctx context.Context, a string) (net.Conn, error) { return newConn(), nil }}
+		rtc := 2 * time.Second
+		if c.Mode == "reconnect" {
+			rtc = 100 * time.Millisecond
+		}
+		cfg := modbus.ClientConfig{ReadTimeout: rtc, WriteTimeout: wt, DialContextFunc: func(ctx context.Context, a string) (net.Conn, error) { return newConn(), nil }}
 		var nc *modbus.Client
 		if c.Client == clientx.TCP {
 			nc = modbus.NewTCPClientWithConfig(cfg)
@@ -351,6 +367,25 @@ func run(ci any, r *mon.Rec) {
 				}
 			}(i)
 		}
+	}
+	if c.Mode == "reconnect" && connect != nil {
+		// one request is answered too late (300 ms against a 100 ms read timeout) and its caller gives up; the application
+		// recovers the way the API offers: it calls Connect again (no Close). The connection it works on afterwards must not
+		// be the one that still holds the late reply - every later caller gets the reply to its own request
+		q0 := specref.Req{FC: 3, Unit: 250, TID: 64000, Addr: 59999, Qty: 7}
+		req0, _ := libx.NewRequest(fr, q0)
+		ow0 := &owner{g: -1, late: true}
+		omu.Lock()
+		owners[uint32(q0.Addr)<<16|uint32(q0.Qty)] = ow0
+		omu.Unlock()
+		_, err0 := cl.Do(context.Background(), req0)
+		ow0.returned.Store(true)
+		r.Cover("reconnect", fmt.Sprintf("late request ended with error=%v", err0 != nil))
+		if err := connect(); err != nil {
+			r.Violate(c, "reconnect-fails", a, err.Error())
+			return
+		}
+		time.Sleep(350 * time.Millisecond) // by now the late reply has arrived on the abandoned connection
 	}
 	var callers sync.WaitGroup
 	for g := 0; g < c.G; g++ {
@@ -425,7 +460,7 @@ func run(ci any, r *mon.Rec) {
 				cancel()
 				if derr != nil {
 					errCalls.Add(1)
-					if c.Mode == "plain" || (c.Mode == "cancel" && !ow.cancelled.Load()) {
+					if c.Mode == "plain" || c.Mode == "reconnect" || (c.Mode == "cancel" && !ow.cancelled.Load()) {
 						addViol("call-fails", fmt.Sprintf("caller %d.%d (its context was not cancelled; the device answers every request): %v", g, k, derr))
 					}
 					continue
